@@ -426,6 +426,17 @@ pub fn c10_case(fam: &str, idx: usize, seed: u64) -> Option<Case> {
             let n0 = first_pass_len(size, 32);
             let at = rng.usize(n0 + 1);
             let trig = if rng.bool() { Trigger::AfterEmit(0, at) } else { Trigger::AfterArrive(1, at.min(n0 - 1)) };
+            if idx % 4 == 3 {
+                // the other order: cancel first, the peer is never heard again, and the user then suspends and
+                // resumes the already cancelled transaction: the cancel handshake must still run into its limit
+                let (d1, d2) = (1 + rng.below(500), 600 + rng.below(3000));
+                sc.scripts.push(Script { trig: trig.clone(), delay_ms: 0, act: Act::Prim(who, PrimKind::Cancel, 0) });
+                sc.scripts.push(Script { trig: trig.clone(), delay_ms: 0, act: Act::AddRule(Rule { from: 1 - who, to: who, m: Matcher::FromIdx(0), a: Action::Drop }) });
+                sc.scripts.push(Script { trig: trig.clone(), delay_ms: d1, act: Act::Prim(who, PrimKind::Suspend, 0) });
+                sc.scripts.push(Script { trig, delay_ms: d1 + d2, act: Act::Prim(who, PrimKind::Resume, 0) });
+                let desc = format!("{} size={} cancel at e{} {:?} with the peer silent from then on, suspend {} ms later, resume {} ms after that", k.describe(), size, who, sc.scripts[0].trig, d1, d2);
+                return Some(Case::from(sc, &k, desc, false));
+            }
             sc.scripts.push(Script { trig: trig.clone(), delay_ms: 1 + rng.below(800), act: Act::Prim(who, PrimKind::Cancel, 0) });
             sc.scripts.push(Script { trig, delay_ms: 0, act: Act::Prim(who, PrimKind::Suspend, 0) });
             if rng.chance(1, 3) {
